@@ -67,13 +67,22 @@ func (p *DynamicProxy) ServeTCP(in net.Conn) error {
 	defer out.Close()
 
 	errc := make(chan error, 2)
-	cp := func(dst io.Writer, src io.Reader, c gkm.Counter) {
-		errc <- copyBuffer(dst, src, c)
+	cp := func(dst net.Conn, src io.Reader, c gkm.Counter) {
+		err := copyBuffer(dst, src, c)
+		// src has ended: pass the end of the stream on so that the
+		// peer can finish, and leave the other direction running
+		closeWrite(dst)
+		errc <- err
 	}
 
 	go cp(in, out, t.RxCounter)
 	go cp(out, in, t.TxCounter)
+	// the tunnel is finished when both directions are: a client which
+	// half-closes after sending still gets the reply
 	err = <-errc
+	if err2 := <-errc; err == nil || err == io.EOF {
+		err = err2
+	}
 	if err != nil && err != io.EOF {
 		log.Print("[WARN]: tcp:  ", err)
 		return err
